@@ -99,7 +99,7 @@ def rule_sd1(ctx: Ctx) -> RuleResult:
     r.sample({"scan_call_sites": {k: v for k, v in classes.items()}})
     if len(sites) < 13:
         raise AnalysisError("SD-1: only %d rs.ops.scan call sites found (13 confirmed by reading; 2 more use rx.operators.scan)" % len(sites))
-    r.require_instances(4)
+    r.require_instances(3)
     return r
 
 
